@@ -151,6 +151,21 @@ impl Part for AllTiny {
             scratch.frozen = true;
             judge(&sc, &mut scratch)?;
         }
+        // the crate's own public predicates agree with what the connection does: Tiny::is_keepalive and Packet::maybe_pong say
+        // "keep-alive" exactly for TINY_NONE with request id 0
+        if c.1 < 30 {
+            let frame = [size_byte(&mode, 4), 3, c.2, c.1];
+            if let Ok(insim::Packet::Tiny(t)) = crate::refs::compare::decode_one(&frame, &mode) {
+                let want = c.1 == 0 && c.2 == 0;
+                ensure!(t.is_keepalive() == want, "c07:keepalive-predicate", "Tiny::is_keepalive() is {} for sub-type {} / request id {}", t.is_keepalive(), c.1, c.2);
+                let pong = insim::Packet::Tiny(t).maybe_pong();
+                ensure!(pong.is_some() == want, "c07:keepalive-predicate", "Packet::maybe_pong() is {pong:?} for sub-type {} / request id {}", c.1, c.2);
+                if let Some(p) = pong {
+                    let out = crate::refs::compare::encode_one(&p, &mode).map_err(|e| Fail::new("c07:keepalive-predicate", e))?;
+                    ensure!(out == [size_byte(&mode, 4), 3, 0, 0], "c07:reply-is-not-one-tiny-none-frame", "maybe_pong() encodes to {}", hex(&out));
+                }
+            }
+        }
         ev.add_evals(1);
         ev.nontrivial_distinct();
         ev.class(if c.1 == 0 && c.2 == 0 { "keepalive" } else if c.1 == 0 { "tiny-none-with-reqi" } else { "other-subtype" });
